@@ -342,6 +342,16 @@ func runOn(w *hist.World, c *Case) (*caseRes, *violation) {
 	r2.Close()
 	w.R = w.R[:2]
 
+	if c.Drain {
+		var otx aolvm.Transaction
+		if json.Unmarshal(po.Data, &otx) == nil {
+			if w.Bal(otx.From, "OLT").Sign() == 0 {
+				res.kind += "+balance-zero"
+			} else {
+				res.kind += "+balance-left"
+			}
+		}
+	}
 	if len(c.Refund) > 0 {
 		_, rr := w.RunBlock(sim.BlockSpec{GapSecs: 5, Txs: [][]byte{c.Refund}})
 		if v := panicked("the block refunding the drained sender", nil); v != nil {
@@ -529,13 +539,16 @@ func TestC05(t *testing.T) {
 				price := big.NewInt(1000000000)
 				bal := w.Bal(f.E.OLAddr(), "OLT")
 				val := new(big.Int).Sub(bal, new(big.Int).Mul(big.NewInt(21000), price))
-				if val.Sign() > 0 {
+				// the refund must cover the old transaction once more (value + fee), or its second execution
+				// would fail for lack of funds whatever the nonce
+				refund := new(big.Int).Add(bal, new(big.Int).Mul(big.NewInt(int64(1+u.N(100, "refund"))), big.NewInt(1000000000000000000)))
+				if val.Sign() > 0 && w.Bal(f.A.Addr, "OLT").Cmp(new(big.Int).Mul(refund, big.NewInt(2))) > 0 {
 					to := ethcmn.BytesToAddress(f.B.Addr)
 					nonce := w.OlvmNext[f.E.Name]
 					tx = txgen.OLVM(f.E, txgen.OLVMArgs{ChainID: w.P.ChainID, Nonce: nonce, To: &to, Value: val,
 						Fee: txgen.Fee{Price: price, Cur: "OLT", Gas: 21000}})
 					c.Drain = true
-					c.Refund = txgen.Send(f.A, f.A.Addr, f.E.OLAddr(), txgen.Amt("OLT", new(big.Int).Mul(big.NewInt(int64(50+u.N(100, "refund"))), big.NewInt(1000000000000000000))), w.Fee, "c05-refund").Bytes
+					c.Refund = txgen.Send(f.A, f.A.Addr, f.E.OLAddr(), txgen.Amt("OLT", refund), w.Fee, "c05-refund").Bytes
 				}
 			}
 		}
